@@ -233,6 +233,23 @@ func VerifC14_Update() {
 		verifAssert("second.identical.update.reports.nothing", err2 == nil && len(status2) == 0)
 		verifAssert("second.identical.update.relaunches.nothing", vGet(w.starts, "a")+vGet(w.starts, "b")+vGet(w.starts, "k")+vGet(w.starts, "c") == startsAll)
 	}
+	// a configuration that was fetched, edited and handed back (the TUI editor, a REST client): k
+	// gets a new command; the instance that replaces the old one runs the new command line
+	if info, e := r.GetProcessInfo("k"); e == nil && info != nil {
+		edited := *info
+		edited.Command = "keep edited"
+		startsK2 := vGet(w.starts, "k")
+		verifAssert("edited.update.succeeds", r.UpdateProcess(&edited) == nil)
+		verifQuiesce()
+		verifAssert("edited.process.relaunched.once", vGet(w.starts, "k") == startsK2+1 && vGet(w.alive, "k") == 1)
+		w.mu.Lock()
+		line := w.startCmd["k"]
+		w.mu.Unlock()
+		verifAssert("relaunched.with.the.edited.command", strings.Contains(line, "keep edited"))
+		if stored, e2 := r.GetProcessInfo("k"); e2 == nil && stored != nil {
+			verifAssert("stored.arguments.match.the.stored.command", strings.Contains(strings.Join(stored.Args, " "), "keep edited"))
+		}
+	}
 	// a manual start of the disabled process uses its new configuration
 	if err := r.StartProcess("d"); err != nil {
 		verifFail("disabled.process.cannot.be.started")
